@@ -59,10 +59,11 @@ let run (cases : case list) =
               | Some s1 ->
                 let (s', ok) = run_thread s1 TLoop (fun s -> s.c_loop = LWait) 1000000 in
                 st := s'; if not ok then dead := true)
-           | "stress" :: _ | ["expectidle"] -> ()
+           | "stress" :: _ | "race" :: _ | ["expectidle"] -> ()
            | _ -> failwith ("post: bad op " ^ op));
           if !dead then "DEADLOCK" else
           match toks with
+          | ["race"; rounds; _; _] -> Printf.sprintf "race rounds=%s lost=0 pending=0 posted=0" rounds
           | ["stress"; ng; m; nn; _] ->
             Printf.sprintf "stress ran=%d once=1 ordered=1 nested=1 offloop=0 pending=0 posted=0"
               (int_of_string ng * int_of_string m * (1 + int_of_string nn))
@@ -80,6 +81,7 @@ let run (cases : case list) =
         let t = split_ws impl in
         if impl = "PANIC" then fail i "panic" op impl
         else if impl = "DEADLOCK" then fail i "3" op impl
+        else if String.length impl >= 11 && String.sub impl 0 11 = "LOST-WAKEUP" then fail i "7" op impl
         else begin
           (match toks with
            | ["def"; h; ids] -> Hashtbl.replace nest (int_of_string h) (parse_ids ids)
@@ -87,6 +89,9 @@ let run (cases : case list) =
            | ["gpost"; g; ids] -> note_post (int_of_string g) (parse_ids ids)
            | _ -> ());
           (match toks with
+           | "race" :: _ ->
+             if kv_def t "lost" "" <> "0" then fail i "7" op impl
+             else if kv_def t "pending" "" <> "0" || kv_def t "posted" "" <> "0" then fail i "6" op impl
            | "stress" :: ng :: m :: nn :: _ ->
              let total = int_of_string ng * int_of_string m * (1 + int_of_string nn) in
              if kv_def t "once" "0" <> "1" then fail i "1" op impl
